@@ -71,6 +71,22 @@ def gtype(t):
     raise ValueError(t)
 
 
+def gvlist(vs):
+    """value list literal; long runs of one value are written (app (repeat v (Z.to_nat n)) rest)"""
+    out, i = 'nil', len(vs)
+    while i > 0:
+        j = i
+        while j > 0 and vs[j - 1] == vs[i - 1]:
+            j -= 1
+        if i - j >= 32:
+            out = '(app (repeat %s (Z.to_nat %d)) %s)' % (gvalue(vs[i - 1]), i - j, out)
+            i = j
+        else:
+            out = '(cons %s %s)' % (gvalue(vs[i - 1]), out)
+            i -= 1
+    return out
+
+
 def gvalue(v):
     k = v[0]
     if k == 'null':
@@ -88,7 +104,7 @@ def gvalue(v):
     if k == 'dur':
         return '(VDur %s %s %s)' % (gz(v[1]), gz(v[2]), gz(v[3]))
     if k == 'seq':
-        return '(VSeq %s)' % glist(gvalue(x) for x in v[1])
+        return '(VSeq %s)' % gvlist(v[1])
     if k == 'map':
         return '(VMap %s)' % glist('(%s,%s)' % (gvalue(a), gvalue(b)) for a, b in v[1])
     if k == 'int-us':
@@ -176,7 +192,15 @@ def to_py(t, v, rng=None):
         if s in ('ascii', 'text'):
             return ''.join(chr(c) for c in v[1])
         if s == 'date':
-            return util.Date(v[1])
+            d = v[1]
+            how = rng.random() if rng is not None else 1.0
+            if how < 0.45 and -719162 <= d <= 2932896:       # datetime's range
+                if how < 0.25:       # a datetime on that day with an arbitrary time of day (also before 1970)
+                    return EPOCH + datetime.timedelta(days=d, seconds=rng.choice([0, 1, 43200, 67500, 86399, rng.randrange(86400)]))
+                if how < 0.35:
+                    return (EPOCH + datetime.timedelta(days=d)).date()
+                return '%04d-%02d-%02d' % (lambda x: (x.year, x.month, x.day))(EPOCH + datetime.timedelta(days=d))
+            return util.Date(d)
         if s == 'time':
             return util.Time(v[1]) if 0 <= v[1] < DAY_NANOS else v[1]       # Time() itself refuses anything else
         if s == 'timestamp':
@@ -272,10 +296,51 @@ def from_py(t, o):
     if k in ('list', 'set', 'vector'):
         return ['seq', [from_py(t[1], x) for x in o]]
     if k == 'map':
+        # raw item list (what was decoded); whether the public Mapping API can read it back is api_check()'s business
         return ['map', [[from_py(t[1], a), from_py(t[2], b)] for a, b in o._items]]
     if k in ('tuple', 'udt'):
         return ['seq', [from_py(tt, x) for tt, x in zip(t[1], tuple(o))]]
     raise ValueError((t, o))
+
+
+def api_check(t, o):
+    """Every decoded map must be readable through the public Mapping API: items() looks every key up again (m[key]),
+    which OrderedMapSerializedKey answers by re-serializing the key.  Returns None or the exception name.
+    (Maps whose wire form repeats a key -- malformed stream only -- are skipped: items() then repeats the last value.)"""
+    k = t[0]
+    if o is None or k == 's':
+        return None
+    if k in ('frozen', 'reversed'):
+        return api_check(t[1], o)
+    if k in ('list', 'set', 'vector'):
+        for x in o:
+            e = api_check(t[1], x)
+            if e:
+                return e
+        return None
+    if k in ('tuple', 'udt'):
+        for tt, x in zip(t[1], tuple(o)):
+            e = api_check(tt, x)
+            if e:
+                return e
+        return None
+    if k == 'map':
+        if len(o._index) == len(o._items):
+            try:
+                items = list(o.items())
+                if len(items) != len(o._items):
+                    return 'items-differ'
+                for (a, b), (a2, b2) in zip(items, o._items):
+                    if a is not a2 or b is not b2:
+                        return 'items-differ'
+            except Exception as e:
+                return exc_name(e)
+        for a, b in o._items:
+            e = api_check(t[1], a) or api_check(t[2], b)
+            if e:
+                return e
+        return None
+    return None
 
 
 def canon_model(t, v):
@@ -341,6 +406,14 @@ def impl_decode(T, t, bs, pv):
     except Exception as e:
         return None, exc_name(e)
     return from_py(t, o), None
+
+
+def impl_api_check(T, t, bs, pv):
+    try:
+        o = T.from_binary(bytes(bs), pv)
+    except Exception:
+        return None
+    return api_check(t, o)
 
 
 # ----------------------------------------------------------------------------- generators
@@ -547,6 +620,19 @@ def contains_scalar(t, name):
     if k == 'map':
         return contains_scalar(t[1], name) or contains_scalar(t[2], name)
     return contains_scalar(t[1], name)
+
+
+def contains_kind(t, kind):
+    k = t[0]
+    if k == kind:
+        return True
+    if k == 's':
+        return False
+    if k in ('tuple', 'udt'):
+        return any(contains_kind(x, kind) for x in t[1])
+    if k == 'map':
+        return contains_kind(t[1], kind) or contains_kind(t[2], kind)
+    return contains_kind(t[1], kind)
 
 
 def kind_of(t):
